@@ -10,6 +10,15 @@ def textErrName : TErr → String
   | .assertion => "AssertionError" | .type_ => "TypeError" | .index => "IndexError"
   | .runtime => "RuntimeError" | .unsupported => "unsupported"
 
+def textUpdOfJson (j : Json) : Option IUpd := do
+  let u ← (jField? j "u").bind jStr?
+  if u == "obs" then pure .observe
+  else if u == "set" then
+    let k ← (jField? j "k").bind jNat?
+    let o ← (jField? j "o").bind operandOfJson
+    pure (.setOp k o)
+  else none
+
 def handleText (op : String) (j : Json) : Option Json :=
   if op == "text.print" then do
     let T ← (jField? j "fl").bind jStr? |>.bind tableOf
@@ -17,6 +26,13 @@ def handleText (op : String) (j : Json) : Option Json :=
     match rowOf T i.cls with
     | some row => pure (Json.mkObj [("s", Json.str (String.ofList (showInstr Gen.syms row.mn i.ops)))])
     | none => pure (Json.mkObj [("s", Json.null)])
+  else if op == "text.hist" then do
+    let T ← (jField? j "fl").bind jStr? |>.bind tableOf
+    let i ← (jField? j "i").bind instrOfJson
+    let us ← (jField? j "us").bind jArr?
+    let us ← us.toList.mapM textUpdOfJson
+    let i' := applyIUpds i us
+    pure (Json.mkObj [("i", instrToJson i'), ("s", Json.str (String.ofList (showLine T Gen.syms i')))])
   else if op == "text.parse" then do
     let T ← (jField? j "fl").bind jStr? |>.bind tableOf
     let ls ← (jField? j "lines").bind jArr?
